@@ -12,7 +12,7 @@ from cutplace import errors
 
 PROPERTY_ID = "C05"
 RULE = (
-    "Exhaustive: every sequence of 0-4 rows (quick) / 0-5 rows (thorough) over 9 row symbols (k1,k2 in {a,b} x v "
+    "Exhaustive: every sequence of 0-4 rows (quick) / 0-5 rows (thorough) over 9 row symbols (k1 in {a,A}, k2 in {a,b} x v "
     "accepted or rejected by its field, plus a row with too few items) x key sets {k1; k1,k2; k2,k1} x both "
     "declaration orders of IsUnique and DistinctCount x the three error modes, the comparison 'k1 <op> n' rotating "
     "through all 6 operators x n in 0..4. Hypothesis: CIDs with 2-3 Text/Choice/Integer fields, an IsUnique check "
@@ -32,7 +32,7 @@ EXHAUSTIVE = True
 EXHAUSTIVE_SCOPE = "all row sequences up to length 4 (quick) / 5 (thorough) over 9 row symbols x 3 key sets x 2 orders x 3 modes"
 
 _OPS = ("<", "<=", "==", "!=", ">=", ">")
-_SYMBOLS = [[k1, k2, v] for k1 in "ab" for k2 in "ab" for v in ("x", "z")] + [["a"]]
+_SYMBOLS = [[k1, k2, v] for k1 in "aA" for k2 in "ab" for v in ("x", "z")] + [["a"]]
 
 
 def _small_spec(keys, op, n, count_first):
